@@ -170,7 +170,11 @@ func main() {
 		fmt.Fprintln(os.Stderr, "start failed:", err)
 		os.Exit(2)
 	}
-	tr.Emit(map[string]any{"e": "init", "n": sc.N, "ordered": sc.Ordered, "md": sc.MD, "unit": sc.Unit, "h": 0, "t": 0})
+	mdMs := 60000
+	if sc.MD > 0 && sc.MD <= 50 {
+		mdMs = sc.MD * sc.Unit
+	}
+	tr.Emit(map[string]any{"e": "init", "n": sc.N, "ordered": sc.Ordered, "md": sc.MD, "mdMs": mdMs, "unit": sc.Unit, "h": 0, "t": 0})
 
 	t0 := time.Now()
 	base := sch.Ms()
@@ -205,6 +209,9 @@ func main() {
 			case "cancel":
 				t.Cancel()
 				emit(map[string]any{"e": "cancelret", "task": st.T})
+			case "unschedule":
+				t.Schedule(time.Time{})
+				emit(map[string]any{"e": "unsched", "task": st.T})
 			case "schedule":
 				at := base + st.At*sc.Unit
 				emit(map[string]any{"e": "sub", "task": st.T, "kind": "schedule", "at": at})
@@ -240,7 +247,19 @@ func main() {
 			a := fmt.Sprintf("t%d", st.T)
 			if sch.Await(a, 4*time.Millisecond, nil) {
 				sch.Release(a)
-				sch.Settle(a, 2*time.Millisecond)
+				// the model's End is the whole return incl. the deferred bookkeeping: wait for the function to
+				// return and give the deferred part (counter, task lock, executing = false, new context) time
+				deadline := time.Now().Add(300 * time.Millisecond)
+				for time.Now().Before(deadline) {
+					mu.Lock()
+					r := running[st.T]
+					mu.Unlock()
+					if !r {
+						break
+					}
+					time.Sleep(500 * time.Microsecond)
+				}
+				time.Sleep(8 * time.Millisecond)
 			}
 		case "await":
 			sch.Await(fmt.Sprintf("t%d", st.T), 2*time.Second, nil)
